@@ -26,7 +26,7 @@ def check(run):
     run.rule = ("random indexes (doc boosts, several segments, deletions) x random scored query trees with boosts "
                 "in {1/2,1,2,4}; Hit scores under limit=None / terms=True judged by TLC against QuerySem!Denote")
     cases, meta = c01.build_cases(run, rng, 12 if quick else 120, 30 if quick else 40, ndocs=(4, 9), depth=3,
-                                  paths=("unlimited", "limited", "terms"), scored_only=True, cmp="full",
+                                  paths=("unlimited", "limited", "terms", "weightingquery"), scored_only=True, cmp="full",
                                   kinds=("ranked", "error"), ops=NOFUZZY, limits=(1, 2, 3), alt=True)
     for cs in cases:
         for qo in cs["qs"]:
